@@ -62,6 +62,34 @@ func (c *Ctx) own13() {
 			}
 		}
 	}
+	// nor is anything appended to one of its buffers: the elements are the
+	// caller's slices (the message of a Publish), and what lies behind their
+	// length in the same array is the caller's too
+	el := c.accKeyless("OWN-13", "net.Buffers", "no-append-to-an-element-of-a-vector")
+	for _, f := range fns {
+		for _, b := range f.Blocks {
+			for _, ins := range b.Instrs {
+				call, ok := ins.(*ssa.Call)
+				if !ok {
+					continue
+				}
+				bl, isB := call.Call.Value.(*ssa.Builtin)
+				if !isB || bl.Name() != "append" || len(call.Call.Args) == 0 || !isByteSlice(call.Call.Args[0].Type()) {
+					continue
+				}
+				base := stripConv(call.Call.Args[0])
+				if sl, isSl := base.(*ssa.Slice); isSl {
+					base = stripConv(sl.X)
+				}
+				if src := elemOf(base); src != nil && isBufferVector(src.Type()) {
+					el.failAt(c.P.Pos(call.Pos()), "%s appends to %s, a buffer of a vector: the bytes land behind the caller's slice in the caller's array (the payload of another request may live there) — a trailer is a buffer of its own", f.Name(), Expr(base))
+				} else {
+					el.pass()
+				}
+			}
+		}
+	}
+	el.done(10, "no append has an element of a [][]byte as its destination")
 	a.done(3, "every slice of a buffer vector is whole, keeps its tail, or states its capacity")
 	c.S.Floor("OWN-13", "slice expressions on buffer vectors", n, 3)
 }
